@@ -198,7 +198,35 @@ fn shadow(ty: u64, r: &mut Rng, ch_idx: &mut dyn FnMut(&mut Rng) -> u64, reg_idx
     }
 }
 
-fn receive<T: Probeable>(rx: IpcReceiver<T>, via_set: bool, undecoded: bool, nmsgs: u32) {
+fn receive<T: Probeable>(rx: IpcReceiver<T>, via_set: bool, undecoded: bool, nmsgs: u32, fd_slots: Option<usize>) {
+    // "the receiving program is at its descriptor limit": wait until everything has been sent,
+    // then leave only k free descriptor numbers, so the kernel can deliver only k of the attached
+    // descriptors (and flags the rest as truncated)
+    let mut limit_token = None;
+    if let Some(k) = fd_slots {
+        let mut n = 0;
+        while !hist::events().iter().any(|e| e.op == "sends.done") && n < 400 {
+            sim::sleep_ns(50_000);
+            n += 1;
+        }
+        // (only once the sender is through with creating channels - otherwise it would be the
+        // harness that runs out of descriptors)
+        if hist::events().iter().any(|e| e.op == "sends.done") {
+            limit_token = Some(sim::fd_limit_with_free_slots(k));
+        }
+    }
+    receive_inner(rx, via_set, undecoded, nmsgs);
+    if let Some(t) = limit_token {
+        sim::restore_fd_limit(t);
+    }
+    hist::log("receiver.done", 0, 0, 0, "");
+    // stay alive: thread exit would release the library's per-thread tables and hide what a
+    // failed decode left in them
+    loop {
+        std::thread::park();
+    }
+}
+fn receive_inner<T: Probeable>(rx: IpcReceiver<T>, via_set: bool, undecoded: bool, nmsgs: u32) {
     let mut handle = |r: Result<T, String>| match r {
         Ok(v) => {
             let mut f = Found::default();
@@ -263,12 +291,6 @@ fn receive<T: Probeable>(rx: IpcReceiver<T>, via_set: bool, undecoded: bool, nms
             }
         }
     }
-    hist::log("receiver.done", 0, 0, 0, "");
-    // stay alive: thread exit would release the library's per-thread tables and hide what a
-    // failed decode left in them
-    loop {
-        std::thread::park();
-    }
 }
 
 fn run_typed<T: Probeable + 'static>(p: &Value, out: &mut Outcome)
@@ -281,7 +303,9 @@ where
     let undecoded = p["undecoded"].as_bool().unwrap_or(false) && via_set;
     let msgs: Vec<Value> = p["msgs"].as_array().cloned().unwrap_or_default().into_iter().take(4).collect();
     let n = msgs.len() as u32;
-    sim::spawn("receiver", None, move || receive::<T>(rx, via_set, undecoded, n));
+    let fd_slots = p["fd_slots"].as_u64().map(|k| k.min(8) as usize);
+    let via_set = via_set && fd_slots.is_none();
+    sim::spawn("receiver", None, move || receive::<T>(rx, via_set, undecoded, n, fd_slots));
     // sender (own sim-process id: corruption faults are counted on its transmissions only)
     let (done_tx, done_rx) = crossbeam_channel::unbounded::<()>();
     let msgs2 = msgs.clone();
@@ -329,6 +353,7 @@ where
             hist::log(if r.is_ok() { "send.ok" } else { "send.err" }, mi as i64, 0, 0, "");
         }
         drop(raw);
+        hist::log("sends.done", 0, 0, 0, "");
         // wait until the receiving side is through with everything, then probe what it should have released
         let _ = done_rx.recv();
         for (c, t) in held {
@@ -493,7 +518,8 @@ impl Scenario for C16S {
         }
         sim["faults"] = json!(faults);
         let via_set = r.chance(1, 3);
-        json!({"sim": sim, "ty": ty, "msgs": msgs, "via_set": via_set, "undecoded": via_set && r.chance(1, 2)})
+        let fd_slots = if variant != "inproc" && r.chance(1, 8) { json!(r.below(3)) } else { Value::Null };
+        json!({"sim": sim, "ty": ty, "msgs": msgs, "via_set": via_set, "undecoded": via_set && r.chance(1, 2), "fd_slots": fd_slots})
     }
     fn run(&self, p: &Value) -> Outcome {
         let mut out = Outcome::default();
